@@ -199,37 +199,16 @@ def _polarity(ctx, fn: FuncInfo, or_test, and_test, or_member, and_member, label
 def check_siblings(ctx) -> None:
     check_operand_lists(ctx)
     ctx.guard(check_equivalence, ctx)
+    from . import gprform
+
+    ctx.guard(gprform.check_interpreters, ctx, "C08.siblings")
+    ctx.guard(gprform.check_remove_genes, ctx, "C08.remover")
     prog = ctx.prog
-    a2s = prog.func("cobra.core.gene", "GPR._ast2str")
-    _polarity(ctx, a2s, lambda t: t == "isinstance(op, Or)", lambda t: t == "isinstance(op, And)", lambda x: "' or '.join" in x, lambda x: "' and '.join" in x, "_ast2str")
-    sym = prog.func("cobra.core.gene", "GPR._symbolic_gpr")
-    _polarity(ctx, sym, lambda t: t == "isinstance(op, Or)", lambda t: t == "isinstance(op, And)", lambda x: "spl.Or(" in x, lambda x: "spl.And(" in x, "_symbolic_gpr")
-    fsym = prog.func("cobra.core.gene", "GPR.from_symbolic._sympy_to_ast")
-    _polarity(ctx, fsym, lambda t: t.endswith("is spl.Or"), lambda t: t.endswith("is spl.And"), lambda x: "op=Or()" in x or "BoolOp(Or()" in x, lambda x: "op=And()" in x or "BoolOp(And()" in x, "from_symbolic")
+    # to_string/_ast2str, as_symbolic/_symbolic_gpr and from_symbolic are evaluated (gprform) instead of read by shape
     vb = prog.func("cobra.core.gene", "GPRCleaner.visit_BinOp")
     _polarity(ctx, vb, lambda t: "BitOr" in t, lambda t: "BitAnd" in t, lambda x: "BoolOp(Or()" in x, lambda x: "BoolOp(And()" in x, "GPRCleaner.visit_BinOp")
     pa = prog.func("cobra.io.sbml", "_sbml_to_model.process_association")
     _polarity(ctx, pa, lambda t: "isFbcOr" in t, lambda t: "isFbcAnd" in t, lambda x: "BoolOp(Or()" in x, lambda x: "BoolOp(And()" in x, "SBML process_association")
-    # names
-    for fn, needle, label in ((a2s, "isinstance(expr, Name)", "_ast2str"), (sym, "isinstance(expr, Name)", "_symbolic_gpr")):
-        tests = [norm(t) for t, _ in c07._branches_all(fn.node) if t is not None]
-        if needle in tests:
-            ctx.ok("C08.siblings", fn, needle, f"{label}: gene names handled", nontrivial=False)
-        else:
-            ctx.bad("C08.siblings", fn, fn.node, f"{label}: no case for gene names")
-    # parentheses of nested operators in _ast2str
-    rec = [n for n in walk_local(a2s.node) if isinstance(n, ast.Call) and norm(n.func).endswith("_ast2str") and any(isinstance(a, (ast.GeneratorExp, ast.ListComp)) for a in ancestors(n))]
-    lvl_ok = bool(rec) and all(len(c.args) >= 2 and norm(c.args[1]) in ("level + 1", "1 + level") for c in rec)
-    if lvl_ok:
-        ctx.ok("C08.siblings", a2s, rec[0], "nested operands are rendered one level deeper")
-    else:
-        ctx.bad("C08.siblings", a2s, rec[0] if rec else a2s.node, "nested operators are not rendered one level deeper: they lose their parentheses and `a and (b or c)` is written as `a and b or c`")
-    rets = [n for n in walk_local(a2s.node) if isinstance(n, ast.Return) and isinstance(n.value, ast.IfExp)]
-    paren = [r for r in rets if norm(r.value.test) == "level" and "(" in norm(r.value.body)]
-    if paren:
-        ctx.ok("C08.siblings", a2s, paren[0], "parentheses are added for every nested operator")
-    else:
-        ctx.bad("C08.siblings", a2s, a2s.node, "_ast2str no longer parenthesises nested operators")
 
 
 # ---------------------------------------------------------------------------------------- pickle
